@@ -30,8 +30,8 @@ func (vc *VC) newFrame(fn *ssa.Function, spec *FuncSpec, parent *Frame) *Frame {
 func (fr *Frame) computeOrdinals() {
 	fr.ordinal = map[ssa.Instruction]int{}
 	type item struct {
-		in   ssa.Instruction
-		kind string
+		in     ssa.Instruction
+		kind   string
 		bi, ii int
 	}
 	var items []item
